@@ -722,6 +722,12 @@ impl<'s> Parser<'s> {
     /// (This restriction is somewhat arbitrary, but it's so we can put
     /// the abbreviation in a fixed capacity array.)
     fn parse_abbreviation(&self) -> Result<Abbreviation, Error> {
+        if self.is_done() {
+            return Err(err!(
+                "expected time zone abbreviation in POSIX time zone \
+                 string, but found the end of string instead"
+            ));
+        }
         if self.byte() == b'<' {
             if !self.bump() {
                 return Err(err!(
@@ -758,7 +764,7 @@ impl<'s> Parser<'s> {
                     "expected abbreviation with at most {} bytes, \
                          but found a longer abbreviation beginning with `{}`",
                     Abbreviation::capacity(),
-                    Bytes(&self.tz[start..i]),
+                    Bytes(&self.tz[start..self.pos()]),
                 ));
             }
             if !self.bump() {
@@ -817,7 +823,7 @@ impl<'s> Parser<'s> {
                     "expected abbreviation with at most {} bytes, \
                      but found a longer abbreviation beginning with `{}`",
                     Abbreviation::capacity(),
-                    Bytes(&self.tz[start..i]),
+                    Bytes(&self.tz[start..self.pos()]),
                 ));
             }
             if !self.bump() {
@@ -1395,7 +1401,7 @@ impl<'s> Parser<'s> {
                 .ok_or_else(|| {
                     err!(
                         "number `{}` too big to parse into 64-bit integer",
-                        Bytes(&self.tz[start..i]),
+                        Bytes(&self.tz[start..self.pos()]),
                     )
                 })?;
             self.bump();
@@ -1427,7 +1433,7 @@ impl<'s> Parser<'s> {
                 .ok_or_else(|| {
                     err!(
                         "number `{}` too big to parse into 64-bit integer",
-                        Bytes(&self.tz[start..i]),
+                        Bytes(&self.tz[start..self.pos()]),
                     )
                 })?;
             self.bump();
